@@ -220,12 +220,18 @@ func storeSlashingProtection(ctx context.Context, protection *SlashingProtection
 			if err != nil {
 				return errors.Wrap(err, "invalid attestation source epoch")
 			}
+			if sourceEpoch < 0 {
+				return errors.New("invalid attestation source epoch: negative")
+			}
 			if sourceEpoch > keyProtection.HighestAttestedSourceEpoch {
 				keyProtection.HighestAttestedSourceEpoch = sourceEpoch
 			}
 			targetEpoch, err := strconv.ParseInt(attestation.TargetEpoch, 10, 64)
 			if err != nil {
 				return errors.Wrap(err, "invalid attestation target epoch")
+			}
+			if targetEpoch < 0 {
+				return errors.New("invalid attestation target epoch: negative")
 			}
 			if targetEpoch > keyProtection.HighestAttestedTargetEpoch {
 				keyProtection.HighestAttestedTargetEpoch = targetEpoch
@@ -237,28 +243,40 @@ func storeSlashingProtection(ctx context.Context, protection *SlashingProtection
 			if err != nil {
 				return errors.Wrap(err, "invalid proposal slot")
 			}
+			if slot < 0 {
+				return errors.New("invalid proposal slot: negative")
+			}
 			if slot > keyProtection.HighestProposedSlot {
 				keyProtection.HighestProposedSlot = slot
 			}
 		}
 
-		existingKeyProtection, exists := existingProtection[key]
-		if exists {
-			// We already have an entry; only add this if it contains newer data.
-			if existingKeyProtection.HighestAttestedSourceEpoch <= keyProtection.HighestAttestedSourceEpoch &&
-				existingKeyProtection.HighestAttestedTargetEpoch <= keyProtection.HighestAttestedTargetEpoch &&
-				existingKeyProtection.HighestProposedSlot <= keyProtection.HighestProposedSlot {
-				protectionMap[key] = keyProtection
-			} else {
-				fmt.Fprintf(os.Stdout, "Existing entry for public key %#x contains newer data; not importing\n", key)
-			}
-		} else {
-			protectionMap[key] = keyProtection
+		// Never lower a value: keep the highest of the imported data, the data we already hold for the key,
+		// and any earlier entry for the same key in this file.
+		if existingKeyProtection, exists := existingProtection[key]; exists {
+			mergeSlashingProtection(keyProtection, existingKeyProtection)
 		}
+		if earlierKeyProtection, exists := protectionMap[key]; exists {
+			mergeSlashingProtection(keyProtection, earlierKeyProtection)
+		}
+		protectionMap[key] = keyProtection
 	}
 	if err := rulesSvc.ImportSlashingProtection(ctx, protectionMap); err != nil {
 		return errors.Wrap(err, "failed to obtain slashing protection")
 	}
 
 	return nil
+}
+
+// mergeSlashingProtection raises each value of dst to the corresponding value of src where that is higher.
+func mergeSlashingProtection(dst *rules.SlashingProtection, src *rules.SlashingProtection) {
+	if src.HighestProposedSlot > dst.HighestProposedSlot {
+		dst.HighestProposedSlot = src.HighestProposedSlot
+	}
+	if src.HighestAttestedSourceEpoch > dst.HighestAttestedSourceEpoch {
+		dst.HighestAttestedSourceEpoch = src.HighestAttestedSourceEpoch
+	}
+	if src.HighestAttestedTargetEpoch > dst.HighestAttestedTargetEpoch {
+		dst.HighestAttestedTargetEpoch = src.HighestAttestedTargetEpoch
+	}
 }
